@@ -86,7 +86,8 @@ def side_conditions(out):
     matrix is dist - (r_i + r_j) bit-exactly"""
     bad = []
     if out.get("input_unchanged") is False:
-        bad.append("get_displacement_tensor modified its positions argument")
+        bad.append("get_displacement_tensor modified an array argument of the caller: %s (the pbc flags are handed over as one boolean ndarray "
+                   "that the caller keeps using: two calls with cutoffs 0.25 and 1.0, then the examined call)" % ", ".join(out.get("input_changed") or ["positions"]))
     if out.get("history_same") is False:
         bad.append("the table of this structure changed after other library calls on it in the same process (Classifier.classify, "
                    "SBC.get_clusters, get_dimensionality, earlier get_displacement_tensor calls with other cutoffs) or after the caller "
@@ -211,7 +212,7 @@ def impl_predicate(c):
 def replay_dict(c, fails, out, extra=None):
     G = X.G
     d = {"kind": "property-fails-on-implementation",
-         "case": {k: c.get(k) for k in ("cell", "pbc", "pos", "cutoff", "api", "cutoff_kind", "history")},
+         "case": {k: c.get(k) for k in ("cell", "pbc", "pos", "cutoff", "api", "cutoff_kind", "history", "pbc_array")},
          "units": "grid units of 2**-12 Angstrom",
          "call": "matid.geometry.%s(positions=pos/4096, cell=cell/4096, pbc=%s, cutoff=%s)" % (
              "get_distances" if c["api"] == "distances" else "get_displacement_tensor", list(c["pbc"]),
@@ -317,6 +318,7 @@ def run(ctx):
             # process-history stream (no PRNG draw, so the case stream itself is unchanged): the same call is made before
             # and after other library entry points ran on the structure and earlier results were overwritten by the caller
             c.setdefault("history", (c["api"] == "distances" and c["id"] % 2 == 0) or (c["api"] == "tensor" and c["id"] % 10 == 0))
+            c.setdefault("pbc_array", c["api"] == "tensor" and c["id"] % 4 == 1)
         tb = time.time()
         impl, modes = run_impl(cases)
         state["t_impl"] += time.time() - tb
@@ -372,6 +374,8 @@ def run(ctx):
         # the model and the code disagree but the property's predicate holds on those inputs:
         # search the stream for an input on which the property itself fails
         hit = search_stream(ctx, cases, impl, 60 if ctx.tier == "quick" else 300)
+        if not hit:
+            hit = focused_search(ctx, failing_cases, 120 if ctx.tier == "quick" else 900)
         if hit:
             c, fails, out = hit
             ctx.violation(replay_dict(c, fails, out, {"broken_obligation": broken}), found_input=True)
@@ -380,7 +384,8 @@ def run(ctx):
             ctx.violation({"kind": "model-implementation-disagreement", "broken": "correspondence relation GeoAgree.c10_agree (model DispTensor.disp_tensor_with vs implementation)",
                            "case": {k: c[k] for k in ("cell", "pbc", "pos", "cutoff", "api")}, "impl_error": out.get("error"),
                            "n_disagreeing_cases": len(failing_cases),
-                           "searched": "property predicate (brute-force lattice sums) on the %d cases of the last batch: holds" % len(cases)},
+                           "searched": "property predicate (brute-force lattice sums) on the %d cases of the last batch: holds; focused search around the disagreeing "
+                                       "inputs (same pbc and cutoff, atoms wrapped / at extreme in-cell positions, rescaled cells of every class): %s" % (len(cases), json.dumps(ctx.coverage.get("focused_search")))},
                           found_input=False)
     elif broken and not failing_cases:
         hit = search_stream(ctx, cases, impl, 60 if ctx.tier == "quick" else 300)
@@ -390,6 +395,89 @@ def run(ctx):
         else:
             ctx.violation({"kind": "proof-obligation-broken", "broken": broken,
                            "searched": "property predicate on the %d cases of the last batch: holds" % len(cases)}, found_input=False)
+
+
+def focused_search(ctx, failing_cases, seconds, batch=320):
+    """The model and the code disagree on inputs on which the property's predicate does not fail (typically inputs with
+    atoms outside the cell, where the statement does not apply).  Search the neighbourhood of those inputs for one INSIDE
+    the property's family on which the predicate fails: same periodicity pattern and cutoff; (a) the atoms wrapped into
+    the cell, (b) the same cell with atoms at extreme in-cell positions, (c) fresh cells of every generator class rescaled
+    so that cutoff / longest body diagonal stays in the neighbourhood of the disagreeing case.  All draws from the one PRNG."""
+    import math
+    rng = ctx.rng
+    t0 = time.time()
+    G = X.G
+
+    def diag2(cell):
+        a, b, c = cell
+        return max(X.dot(v, v) for v in (X.add(X.add(a, b), c), X.sub(X.add(a, b), c), X.add(X.sub(a, b), c), X.sub(X.sub(a, b), c)))
+
+    def extreme_positions(cell, n):
+        # scaled coordinates from {0, 1 - 1/64, random}: far corners of the half-open cell maximise in-cell separations
+        pos = []
+        for _ in range(n):
+            fr = [rng.choice([Fraction(0), Fraction(63, 64), Fraction(rng.randint(0, 63), 64)]) for _k in range(3)]
+            p = tuple(int(math.floor(sum(fr[k] * cell[k][m] for k in range(3)))) for m in range(3))
+            p = GEN.wrap_into_cell(cell, p)
+            pos.append(p)
+        return pos
+
+    def usable(c):
+        ext2 = X.longest2(c["cell"], c["pbc"]) if c["cutoff"] is None else c["cutoff"] * c["cutoff"]
+        return (X.vol(c["cell"]) != 0 and GEN.ext_size(c["cell"], c["pbc"], ext2, len(c["pos"])) <= 4 * GEN.MAX_EXT
+                and GEN.bins_ok(c["cell"], c["pbc"], c["pos"], ext2, c["cutoff"]))
+
+    tried = 0
+    nid = 5 * 10 ** 7
+    first = True
+    while time.time() - t0 < seconds:
+        cands = []
+        if first:
+            for d, _o in failing_cases[:8]:
+                if X.vol(d["cell"]) != 0:
+                    w = dict(d, pos=[GEN.wrap_into_cell(d["cell"], q) for q in d["pos"]], cutoff_kind="focused:wrapped")
+                    cands.append(w)
+            first = False
+        guard = 0
+        while len(cands) < batch and guard < 20 * batch:
+            guard += 1
+            d, _o = failing_cases[rng.randrange(min(len(failing_cases), 8))]
+            if X.vol(d["cell"]) == 0:
+                continue
+            n = rng.randint(2, 5)
+            if rng.random() < 0.3:
+                cell, kind = d["cell"], "focused:same-cell"
+            else:
+                cell, ck = GEN.gen_cell(rng)
+                if d["cutoff"] is not None:
+                    # rescale so that cutoff / diagonal is near the disagreeing case's ratio
+                    want = math.sqrt(diag2(d["cell"])) * rng.uniform(0.6, 1.3)
+                    f = want / math.sqrt(diag2(cell))
+                    cell = tuple(tuple(int(round(x * f)) for x in v) for v in cell)
+                    if not GEN._ok_cell(cell):
+                        continue
+                kind = "focused:" + ck
+            pos = extreme_positions(cell, n) if rng.random() < 0.7 else GEN.gen_positions(rng, cell, n, True)
+            c = {"cell": cell, "cell_kind": kind, "pbc": d["pbc"], "pos": pos, "cutoff": d["cutoff"], "cutoff_kind": d.get("cutoff_kind", "focused"),
+                 "api": d["api"] if d["cutoff"] is None else "tensor", "pbc_scalar": False, "history": False, "pbc_array": False}
+            if usable(c):
+                cands.append(c)
+        if not cands:
+            break
+        for c in cands:
+            nid += 1
+            c["id"] = nid
+        impl, _m = run_impl(cands)
+        tried += len(cands)
+        for c in cands:
+            fails = predicate_failures(c, impl[c["id"]])
+            if fails:
+                ctx.coverage["focused_search"] = {"inputs_tried": tried, "found": True, "kind": c.get("cell_kind"), "seconds": round(time.time() - t0, 1)}
+                small = shrink(c, lambda cand: bool(impl_predicate(cand)[0]))
+                sf, so = impl_predicate(small)
+                return (small, sf, so) if sf else (c, fails, impl[c["id"]])
+    ctx.coverage["focused_search"] = {"inputs_tried": tried, "found": False, "seconds": round(time.time() - t0, 1)}
+    return None
 
 
 def search_stream(ctx, cases, impl, seconds):
